@@ -438,6 +438,11 @@ def rand_node(rng, ids_mode, counter, voc):
     rng.shuffle(attrs)
     k = rng.choice((0, 0, 1, 1, 2, 2, 3, 4))
     classes = rng.sample(voc['classes'], min(k, len(voc['classes'])))
+    # repeated class names (`class="a b a"`): `_classNames` keeps every occurrence, the class index lists the element
+    # once per occurrence, the searches must still return it once
+    if classes and rng.random() < 0.2:
+        for _ in range(rng.choice((1, 1, 2))):
+            classes.insert(rng.randrange(len(classes) + 1), rng.choice(classes))
     pre = rng.choice(TEXTS)
     post = rng.choice(TEXTS) if rng.random() < 0.3 else ''
     return [tag, attrs, classes, [pre, post], []]
@@ -648,6 +653,8 @@ def tight_doc(rng, n):
                 attrs.append([a, rng.choice(TIGHT)])
         rng.shuffle(attrs)
         classes = rng.sample(['a', 'b', 'ab'], rng.choice((0, 1, 2, 3)))
+        if classes and rng.random() < 0.2:
+            classes.insert(rng.randrange(len(classes) + 1), rng.choice(classes))
         text = [rng.choice(TIGHT + ['']), rng.choice(TIGHT + ['']) if rng.random() < 0.3 else '']
         nodes.append([rng.choice(('div', 'span', 'b')), attrs, classes, text, []])
     for i in range(1, n):
@@ -871,6 +878,8 @@ class Check(PropCheck):
         fs.add('depth:' + ('0-1' if depth <= 1 else '2-3' if depth <= 3 else '4+'))
         if flat.E[0]['tag'] == WRAPPER:
             fs.add('several-roots')
+        if any(len(set(e['classes'])) < len(e['classes']) for e in flat.E):
+            fs.add('doc-repeated-class-name')
         for (r, o), e in zip(d['queries'], exp):
             rk = 'P-root=' if (r[0] == 'P' and len(r) > 1) else r[0]
             fs.add('recv:' + rk)
